@@ -14,6 +14,14 @@ TABLE = {
     "c01_builder_swaps_operands.diff": ("contracts.c02", "IRBuilder.arithmetic", None),
     "c01_not_as_ne.diff": ("contracts.c01", "lower_unary_op", None),
     "c01_input_const_boolean.diff": ("contracts.c01", "_is_boolean_producer", None),
+    "c01_arith_op_operands_swapped.diff": ("contracts.c01c", "_lower_arithmetic_op", None),
+    "c01_merge_result_ignored.diff": ("contracts.c01c", "_lower_arithmetic_op", None),
+    "c01_logical_op_swapped.diff": ("contracts.c01c", "_lower_logical_op", None),
+    "c02_bundle_power_spelling.diff": ("contracts.c01c", "_lower_bundle_op", None),
+    "c06_entity_output_wrong_entity.diff": ("contracts.c01c", "lower_entity_output", None),
+    "c09_dict_typed_literal_dropped.diff": ("contracts.c01c", "lower_dict_literal", "typed-literal"),
+    "c15_type_access_variable_before_parameter.diff": ("contracts.c01c", "_resolve_signal_type", "x.type"),
+    "c15_actual_type_wildcard_allowed.diff": ("contracts.c01c", "_get_actual_type_from_ref", None),
     "c01_chain_connective_swapped.diff": ("contracts.c01", "_try_fold_logical_chain", None),
     "c01_condvalue_semantic_type_first.diff": ("contracts.c01", "lower_output_spec_expr", "op <;"),
     "c02_no_wire_separation_flag.diff": ("contracts.c02", "bundle_arithmetic", None),
